@@ -167,9 +167,9 @@ type NearMiss struct {
 // parts of a timestamp, so a mutation can address one field
 type parts struct {
 	year, month, day, hour, min, sec string
-	frac                            string // digits, "" when none
-	zulu                            bool
-	sign, oh, om                    string
+	frac                             string // digits, "" when none
+	zulu                             bool
+	sign, oh, om                     string
 }
 
 func (p parts) offset() string {
